@@ -5,14 +5,18 @@ PROP = dict(
         anchors='C10.json', expr_imports=['Firefly.Gen.C10'],
         # clients that receive pointers into the block: enumerate, run the real client, enumerate again
         extra_runs=[dict(module='kernel', pkg='mm/pmm', pkgname='pmm', harness=['pmm/pmm_test.go', 'pmm/c10pmm_test.go'],
-                         test='TestVerifC10Pmm', n=dict(quick=40, thorough=1500))],
+                         test='TestVerifC10Pmm', n=dict(quick=40, thorough=1500)),
+                    dict(module='kernel', pkg='device/video/console', pkgname='console', harness=['console/c10fb_test.go'],
+                         test='TestVerifC10Fb', n=dict(quick=30, thorough=600))],
         nontrivial=r'^(M \d+ \| (done|stop) [1-9]|F \| ok \d|C \| ok [1-9]|E \| done [1-9]|T \d+ \| ok \d)',
         rule='one evaluation = one call of the real findTagByType / VisitMemRegions / GetFramebufferInfo(+field reads) / '
              'GetBootCmdLine / VisitElfSections (or a dump of the block after the calls) on a generated multiboot block placed '
              'directly before a PROT_NONE page, replayed through the Lean model; the oracle compares the real observation with '
              'the expectation computed from the generator-level description of the block (never from the model); '
              'distinct = by hash of the (op, observation) line; non-trivial = the call found its tag and reported at least one '
-             'region / a framebuffer / a key / a section',
+             'region / a framebuffer / a key / a section; client runs (packages pmm and console) enumerate the memory map / re-read the '
+             'framebuffer description before and after the real boot allocator, pmm.Init, the console probes, DriverInit and console '
+             'operations ran on the same block (lines #X <step>), the oracle clause stays "equals what the block encodes"',
         trusted=['guard pages (mmap + mprotect PROT_NONE) and debug.SetPanicOnFault turn an out-of-block access of the Go code into an '
                  'observation; accesses *before* the block start are only caught when they leave the 16-page arena',
                  'the Go generator c10Encode and the Lean encode are compared byte for byte on every generated block',
